@@ -4,6 +4,8 @@ import itertools
 import json
 import os
 import random
+import subprocess
+import sys
 
 from pyasn1 import error
 from pyasn1.type import base
@@ -119,6 +121,104 @@ GUIDES = [None, P.sc('int'), P.sc('octs'), P.sc('bits'), P.sc('bool'), P.sc('oid
           P.sc('any'), P.sc('any', [P.op('E', 2, 0)])]
 
 
+def check_dispatch_model(ctx, sc):
+    """TLC on spec/DecoderSM.tla: the dispatch walk has no cycle, a value needs a decoder, every call ends"""
+    depth = 2 if ctx.quick else 3
+    with open(sc.file('MC_sm.cfg'), 'w') as f:
+        f.write('SPECIFICATION Spec\nCONSTANT MaxDepth = %d\nCONSTANT MaxKids = 2\n' % depth +
+                ''.join('INVARIANT %s\n' % i for i in ('TypeOK', 'FrameStepsBounded', 'ValueNeedsDecoder', 'CallersAreInValue',
+                                                       'TopNeverEoo', 'ExplicitOnlyForTaggedConstructed')) +
+                'PROPERTY RankIncreases\nPROPERTY Terminates\nCHECK_DEADLOCK FALSE\n')
+    r = tlc.run(os.path.join(tlc.SPEC, 'DecoderSM.tla'), sc.file('MC_sm.cfg'), sc, timeout=3000, coverage=True)
+    ctx.add_tlc('DecoderSM dispatch machine (depth %d, 2 members; safety + termination under weak fairness)' % depth, r)
+    if not r.ok:
+        raise core.Machinery('DecoderSM model check failed: %s %s\n%s' % (r.violated, r.errors[:3], r.out[-1500:]))
+
+
+def dispatch_part(ctx, sc, rnd, jobs, labels, picked):
+    """the decoder's own state transitions (PYASN1_VERIF_TRACE hook) against spec/DecoderSM.tla"""
+    check_dispatch_model(ctx, sc)
+    per = 10 if ctx.quick else 40
+    sm, meta = [], {}
+    for job in jobs:
+        bid, rules, T, streaming, inputs = job
+        for d in (inputs if len(inputs) <= per else rnd.sample(inputs, per)):
+            jid = len(sm) + 1
+            sm.append([jid, rules, T, streaming, [list(d)]])
+            meta[jid] = (labels[bid][0], rules, T, streaming)
+    # valid encodings fed to the streaming decoder in pieces: frames are suspended by an underrun and resumed
+    for c in picked:
+        for m, w in sorted(c['forms'].items()):
+            if len(w) > 40 or len(w) < 2:
+                continue
+            rules = m if m in ('der', 'cer') else 'ber'
+            for _ in range(2 if ctx.quick else 6):
+                cuts = sorted(rnd.sample(range(1, len(w)), min(len(w) - 1, rnd.randint(1, 4))))
+                chunks = [list(w[a:b]) for a, b in zip([0] + cuts, cuts + [len(w)])]
+                for T in (c['T'], None):
+                    jid = len(sm) + 1
+                    sm.append([jid, rules, T, True, chunks])
+                    meta[jid] = ('valid encoding in %d pieces' % len(chunks), rules, T, True)
+    inp, outp = sc.file('sm_in.json'), sc.file('sm.ndjson')
+    json.dump(sm, open(inp, 'w'), separators=(',', ':'))
+    env = dict(os.environ, PYASN1_VERIF_TRACE='1')
+    p = subprocess.run([sys.executable, '-m', 'harness.sm_collect', inp, outp], env=env, stdout=subprocess.PIPE,
+                       stderr=subprocess.STDOUT, text=True, timeout=3000)
+    if p.returncode != 0:
+        raise core.Machinery('hooked collector failed: ' + p.stdout[-1500:])
+    traces = [json.loads(x) for x in open(outp)]
+    nev = sum(len(t['ev']) for t in traces) // 8
+    # self-tests: a trace of a successful nested decode, corrupted three ways
+    base = next(t for t in traces if t['ev'][-8 + 2] == 1 and t['ev'].count(6) and len(t['ev']) >= 8 * 12)
+    ev = base['ev']
+    vi = next(i for i in range(0, len(ev), 8) if ev[i] == 3 and ev[i + 2] == 6)
+    st = []
+    x = list(ev); x[vi + 3] = 2 if x[vi + 3] != 2 else 1
+    st.append({'id': 10 ** 8, 'ev': x})                                  # another decoder kind
+    st.append({'id': 10 ** 8 + 1, 'ev': ev[:vi] + ev[vi + 8:]})          # the Value state never entered
+    xi = next(i for i in range(0, len(ev), 8) if ev[i] == 5)
+    x = list(ev); x[xi + 2] = 0
+    st.append({'id': 10 ** 8 + 2, 'ev': x})                              # returns no value
+    gi = next(i for i in range(0, len(ev), 8) if ev[i] == 3 and ev[i + 2] == 2)
+    x = list(ev); x[gi + 5] = 8; x[gi + 3] = 0
+    st.append({'id': 10 ** 8 + 3, 'ev': x})                              # the tag read was an unknown universal one
+    with open(outp, 'a') as f:
+        for t in st:
+            f.write(json.dumps(t, separators=(',', ':')) + '\n')
+    tlc.write_cfg(sc.file('tsm.cfg'), spec='TraceSpec')
+    r = tlc.run(os.path.join(tlc.SPEC, 'Trace_DecoderSM.tla'), sc.file('tsm.cfg'), sc, env={'TRACE_FILE': outp}, timeout=3000,
+                heap='16g')
+    ctx.add_tlc('dispatch trace acceptor', r)
+    want = nev + sum(len(t['ev']) // 8 for t in st) + len(traces) + len(st)
+    if not r.ok or r.distinct != want:
+        raise core.Machinery('dispatch acceptor failed: distinct %s want %s %s\n%s' % (r.distinct, want, r.errors[:3], r.out[-1500:]))
+    rej = [q for q in r.printed if isinstance(q, list) and len(q) == 4 and q[0] == 'REJECT']
+    if {q[1] for q in rej if q[1] >= 10 ** 8} != {10 ** 8 + i for i in range(4)}:
+        raise core.Machinery('dispatch acceptor self-test failed: %s' % [q for q in rej if q[1] >= 10 ** 8])
+    ctx.extra['dispatch_selftest'] = ('hook traces with a swapped decoder kind, a skipped Value state, a valueless return and an '
+                                      'altered tag are all rejected')
+    byid = {t['id']: t for t in traces}
+    bad = set()
+    for _, tid, j, clause in rej:
+        if tid >= 10 ** 8:
+            continue
+        what, rules, T, streaming = meta[tid]
+        job = sm[tid - 1]
+        data = bytes(b for c in job[4] for b in c)
+        bad.add(tid)
+        ctx.report('dispatch %s: %s decoder (%s, guide %s) on %s at event %d' % (
+            clause, rules, 'streaming' if streaming else 'one-shot', P.shape_key(T) if T else 'schemaless', data.hex(), j),
+            {'clause': clause, 'part': 'dispatch', 'rules': rules, 'guide': P.shape_key(T) if T else 'schemaless',
+             'streaming': streaming, 'source': what.split(' ')[0],
+             'nested_bitstring': any(data[i] == 0x23 and 0x23 in data[i + 1:i + 4] for i in range(len(data)))},
+            {'prop': 'C08', 'kind': 'dispatch', 'rules': rules, 'T': T, 'streaming': streaming, 'chunks': job[4],
+             'clause': clause, 'event': j, 'events': byid[tid]['ev']})
+    ctx.traces += len(traces) - len(bad)
+    ctx.evaluations += nev
+    ctx.extra['dispatch'] = '%d decoder runs, %d hook events validated against spec/DecoderSM.tla' % (len(traces), nev)
+    ctx.sample({'dispatch trace (8-tuples kind,cid,a..f)': base['ev'][:64], 'input': sm[base['id'] - 1][4]})
+
+
 def run(ctx):
     rnd = random.Random(ctx.seed)
     maxlen = 3 if ctx.quick else 4
@@ -160,7 +260,8 @@ def run(ctx):
             crafted.append([t, 0x88] + list(ln.to_bytes(8, 'big')) + [1, 2, 3])
     crafted += [[0xa0, 0x80, 0, 0], [0xa0, 0], [0xa0, 0x80, 0xa0, 0x80, 0, 0, 0, 0], [0x30, 0x80, 0xa0, 0x80, 0, 0, 0, 0],
                 [0x24, 0x80, 0, 0], [0x23, 0x80, 0, 0], [0x23, 2, 0xa0, 0], [0x24, 2, 0xa0, 0], [0x2c, 0x80, 0, 0],
-                [0x31, 0x80, 0xa1, 0x80, 0, 0, 0, 0], [0xa7, 0x80, 0, 0], [0xa9, 0x80, 0, 0]]
+                [0x31, 0x80, 0xa1, 0x80, 0, 0, 0, 0], [0xa7, 0x80, 0, 0], [0xa9, 0x80, 0, 0],
+                list(bytes.fromhex('bf1f0d230b23010303000000030206c0')), list(bytes.fromhex('230b23010303000000030206c0'))]
     for rules in ('ber', 'cer', 'der'):
         for T in GUIDES + [P.sc('int', [P.op('E', 2, 0)]),
                            {'k': 'choice', 'tags': [P.op('E', 2, 0)], 'alts': [{'name': 'x', 't': P.sc('int')}, {'name': 'y', 't': P.sc('null')}]}]:
@@ -174,6 +275,7 @@ def run(ctx):
                    maxstack=1, shapes=['scalar', 'seqof', 'setof', 'choice', 'deep', 'any'], pool=1,
                    modes=['der', 'cer', 'ber_indef_c1', 'v_indefdef', 'v_nest'])
         cases = P.generate(ctx, sc, gen, invariants=['TypeOK', 'AllFormsDecode', 'ReadersMonotone'])
+        cases.sort(key=lambda c: json.dumps([c['T'], c['v']], sort_keys=True))    # TLC's dump order varies with its workers
         rnd.shuffle(cases)
         picked = []
         seen = set()
@@ -242,8 +344,11 @@ def run(ctx):
                     'events (status,steps,len,0)*': results[0][0][80:104]})
         ctx.sample({'batch': labels[jobs[-1][0]][:4], 'inputs': [bytes(x).hex() for x in jobs[-1][4][:4]],
                     'events (status,steps,len,0)*': results[-1][0][:16]})
+        dispatch_part(ctx, sc, rnd, jobs, labels, picked)
     ctx.rule = ('(a) all octet strings of length <= %d over the 16-octet structural alphabet x {BER,CER,DER} x {one-shot, '
                 'streaming} x 14 guides (13 types + schemaless); (b) single bit flips, deletions, insertions, replacements '
                 'and truncations of valid encodings of the universe, under their own type and schemaless; each input is one '
-                'event of spec/Trace_Clean.tla (status class + step bound %s)' % (maxlen, '24*len+64'))
+                'event of spec/Trace_Clean.tla (status class + step bound %s); (c) the state transitions of the decoder itself, recorded '
+                'through the PYASN1_VERIF_TRACE hook for a sample of (a), (b) and for valid encodings streamed in pieces, validated '
+                'against the dispatch machine spec/DecoderSM.tla (model-checked: acyclic walk, termination)' % (maxlen, '24*len+64'))
     ctx.exhaustive = ctx.quick
